@@ -278,8 +278,10 @@ no constraint keyword, null source "type list" exactly when `is_optional` ends u
 def UVec.asVec (u : UVec) : Vec :=
   { u.base with nullsrc := if u.flag then .typelist else .no, ty := .scalar, constr := false }
 
-/-- a default of list/dict class does not fit a union of scalars; one alternative at least -/
-def UVec.valid (u : UVec) : Bool := u.asVec.valid && !u.alts.isEmpty
+/-- a default of list/dict class does not fit a union of scalars; at least one alternative has a
+type other than null (a member that can only be null is written `n: None`, which is not a union and
+which pydantic 1 does not read as `Optional`: outside the space) -/
+def UVec.valid (u : UVec) : Bool := u.asVec.valid && u.alts.any (fun a => a.atom?.isSome)
 
 /-- `get_object_field` for an `anyOf`/`oneOf` member: `type_has_null` is False (`type` is not a
 list), `is_constraints_field` is False (so `constraints=None`), `nullable` is the keyword's default;
